@@ -27,8 +27,8 @@ pub trait ChainAnyT<W, S>: Sized + Clone {
     fn heads_debug(&self) -> String;
     fn is_whole(&self) -> bool;
     /// checkpoint, decode with `m0`, seek back to the checkpoint, decode with `m1`; returns
-    /// (first result, whether the seek succeeded, second result). A refused seek (the Vec
-    /// backend cannot grow back) falls back to a clone taken at the checkpoint.
+    /// (first result, whether the seek succeeded, second result). After a refused seek (the
+    /// Vec backend cannot grow back) nothing more is decoded: the first result stands.
     fn dec_via_seek(&mut self, m0: &Built, m1: &Built) -> (DecRes, bool, DecRes);
 }
 
@@ -114,8 +114,10 @@ macro_rules! chain_level {
                     let backup = c.clone();
                     let r0 = <$W as WordOps>::dec_p::<_, $P>(c, m0);
                     let sought = c.seek(checkpoint).is_ok();
-                    if !sought { *c = backup; }
-                    let r1 = <$W as WordOps>::dec_p::<_, $P>(c, m1);
+                    let _ = backup;
+                    // a refused seek must leave the coder where it was: the symbol decoded with
+                    // `m0` stands and decoding simply goes on
+                    let r1 = if sought { <$W as WordOps>::dec_p::<_, $P>(c, m1) } else { r0.clone() };
                     (r0, sought, r1)
                 } )* }
             }
@@ -330,13 +332,14 @@ where
                     let Some(b) = model(mi) else { ctx.stats.hit("skipped-op"); continue };
                     if b.p != run.coder.precision() || !b.can_decode() { ctx.stats.hit("skipped-op"); continue }
                     let pre = run.coder.clone();
-                    let res = match (swap, model(*m)) {
+                    let (res, b, mi) = match (swap, model(*m)) {
                         (Some((idx, _, true)), Some(b0)) if idx == run.symbols.len() && b0.p == b.p && b0.can_decode() => {
                             let (_, sought, r1) = run.coder.dec_via_seek(b0, b);
                             ctx.stats.hit(if sought { "op-chain-seek-back" } else { "op-chain-seek-refused" });
-                            r1
+                            // refused: the original model was the one that decoded this position
+                            if sought { (r1, b, mi) } else { (r1, b0, *m) }
                         }
-                        _ => run.coder.dec(b),
+                        _ => (run.coder.dec(b), b, mi),
                     };
                     let expect = r.as_mut().and_then(|r| r.next_quantile(b.p as u32));
                     match res {
